@@ -476,9 +476,36 @@ class distribution_version_assumed:
     modifies = []
 
 
-@contract("safeds_stubgen.docstring_parsing._create_docstring_parser:create_docstring_parser", props=["C15"], verify=False)
-class create_docstring_parser_assumed:
+_DP = "safeds_stubgen.docstring_parsing._docstring_parser:"
+
+
+@contract(_DP + "DocstringParser.__init__", props=["C13"], verify=False)
+class docstring_parser_init_assumed:
+    """Assumed (frame only): the constructor loads the package with griffe (a `while True` / `try` retry loop around an
+    external call, outside the verified subset). Its arguments are observed through the call log of its one caller."""
     modifies = []
+
+
+@contract("safeds_stubgen.docstring_parsing._create_docstring_parser:create_docstring_parser", props=["C13", "C14", "C15"])
+class create_docstring_parser_table:
+    """The docstring style option selects the griffe parser (C13/C14: the three structured styles are read by the
+    parser of that style, on the package directory handed in; anything else by the plain-text parser). Exactly one
+    parser object is constructed per call and it is the result."""
+    params = {"style": "DocstringStyle", "package_path": "pathlib.Path"}
+    ghost = ["EXT"]
+    log_calls = ["DocstringParser.__init__"]
+    modifies = []
+    safety = False
+
+    def ensures_table(style, package_path, result):
+        from griffe import Parser
+        from safeds_stubgen.docstring_parsing._plaintext_docstring_parser import PlaintextDocstringParser
+        d = CALLS(EXT, "DocstringParser.__init__")
+        structured = style == DocstringStyle.GOOGLE or style == DocstringStyle.NUMPYDOC or style == DocstringStyle.REST
+        return (len(d) == 1 and isinstance(result, DocstringParser) and d[0][1] == result and d[0][3] == package_path
+                and d[0][2] == (Parser.google if style == DocstringStyle.GOOGLE else
+                                (Parser.numpy if style == DocstringStyle.NUMPYDOC else Parser.sphinx))) if structured \
+            else (len(d) == 0 and isinstance(result, PlaintextDocstringParser))
 
 
 @contract("safeds_stubgen.api_analyzer._ast_walker:ASTWalker.walk", props=["C15"], verify=False)
@@ -503,7 +530,7 @@ class get_api_filter:
     directories are the parents of the non-skipped __init__ files; the search starts at the single nearest package
     directory, else at the given root. The rest of the analysis (mypy build, AST walk) is assumed / bounded."""
     returns = "API"
-    log_calls = ["_get_mypy_asts"]
+    log_calls = ["_get_mypy_asts", "create_docstring_parser"]
     params = {"root": "pathlib.Path", "docstring_style": "DocstringStyle", "is_test_run": "bool",
               "type_source_preference": "TypeSourcePreference", "type_source_warning": "TypeSourceWarning"}
     ghost = ["EXT"]
@@ -522,6 +549,12 @@ class get_api_filter:
         return b[1] == [str(p) for p in files if not SKIPPED(p, is_test_run) and not IS_INIT(p)] \
             and a[1] == b[2] and a[2] == b[1] \
             and a[3] == [str(p.parent) for p in files if not SKIPPED(p, is_test_run) and IS_INIT(p)]
+
+    @clause(props=["C13", "C14"])
+    def ensures_style_reaches_the_docstring_parser(root, docstring_style, is_test_run, type_source_preference,
+                                                   type_source_warning, result):
+        c = CALLS(EXT, "create_docstring_parser")
+        return len(c) == 1 and c[0][1] == docstring_style and c[0][2] == CALLS(EXT, "pathlib.Path.glob")[0][1]
 
 
 @contract("safeds_stubgen.api_analyzer._api:API.to_json_file", props=["C10", "C12"])
